@@ -139,6 +139,7 @@ type world struct {
 	backMu sync.Mutex
 	lag    *lagMeter
 	dirs   []string
+	omu    sync.Mutex // output records written by goroutines other than the scenario's own
 }
 
 // the reply a real node with that chain gives to a request
@@ -183,6 +184,16 @@ type scenario struct {
 	done   chan struct{}
 	aReqs  int64
 	aWorst time.Duration
+	over   bool // (under w.omu) the scenario's goroutine is writing its verdicts: no more records from others
+}
+
+// a progress record from one of the peers' goroutines
+func (s *scenario) progressFromPeer(what interface{}) {
+	s.w.omu.Lock()
+	defer s.w.omu.Unlock()
+	if !s.over {
+		progress(s.out, what)
+	}
 }
 
 func (s *scenario) note(act string) {
